@@ -1218,6 +1218,11 @@ def run(ctx):
     cfg = regenerate(ctx)
     ctx.prove(required=REQUIRED)
     model = ctx.build_model("c08")
+    if model:
+        # private copy: a concurrent check of another tree (VERIF_REPO) rebuilds the driver with its own table
+        import shutil
+        shutil.copy(model, os.path.join(ctx.tmp, "wamodel_c08"))
+        model = os.path.join(ctx.tmp, "wamodel_c08")
     seeds = Seeds()
     quick = ctx.tier == "quick"
     timing = {"build+prove_s": round(time.time() - t0, 1)}
